@@ -13,6 +13,22 @@ type writeLog struct {
 	cells map[*ssa.Alloc]bool
 	comps map[string]bool
 	all   bool
+	stars int            // number of havoc-everything events
+	excl  map[string]int // how many of them preserved a given component
+}
+
+// logStar records a havoc-everything event that preserved the components in keep.
+func logStar(keep []string) {
+	for _, l := range activeLogs {
+		l.all = true
+		l.stars++
+		if l.excl == nil {
+			l.excl = map[string]int{}
+		}
+		for _, k := range keep {
+			l.excl[k]++
+		}
+	}
 }
 
 var activeLogs []*writeLog
@@ -26,6 +42,7 @@ func logComp(k string) {
 	for _, l := range activeLogs {
 		if k == "*" {
 			l.all = true
+			l.stars++
 		} else {
 			l.comps[k] = true
 		}
@@ -180,6 +197,11 @@ func (fx *FX) enterLoop(fr *frame, li *loopInfo, b *ssa.BasicBlock, ins []*State
 		sort.Strings(ks)
 		if log.all {
 			ks = append([]string{"*"}, ks...)
+			for k, n := range log.excl {
+				if n == log.stars && !log.comps[k] {
+					ks = append(ks, "-"+k)
+				}
+			}
 		}
 		fx.havoc(st, ks)
 	}
@@ -498,6 +520,9 @@ func (fx *FX) frameKeys(log *writeLog) []string {
 	for _, m := range c.Modifies {
 		if m == "*" {
 			return nil
+		}
+		if strings.HasPrefix(m, "-") {
+			continue
 		}
 		for _, k := range fx.expandCompName(m) {
 			allowed[k] = true
